@@ -93,10 +93,14 @@ def gen_marker(rng, n, tier):
             thr = [rng.choice([0.3, 3.3, 1.7e9, 1e-12, 35.0, -2.5, 1e300, 2.0 ** -1060]) for _ in range(nf)]
             near = lambda t: rng.choice([t, math.nextafter(t, math.inf), math.nextafter(t, -math.inf), t * (1 + 1e-12), t * (1 - 1e-12), t * (1 + 3e-10), t + abs(t) * 1e-15, 0.1 + 0.2, 3 * 1.1, None, 0.0])
             cols = [[near(thr[j]) for _ in range(k)] for j in range(nf)]
-        out.append({'mode': rng.choice([1, 2]), 'thr': thr, 'via': rng.choice(['fn', 'fn', 'collection']), 'nameset': rng.choice([None, None, None, 'ops', 'other']),
+        out.append({'mode': rng.choice([1, 2]), 'thr': thr, 'via': rng.choice(['fn', 'fn', 'collection']), 'nameset': rng.choice([None, None, None, 'ops', 'other', 'repeat']),
                     'cols': cols, 'scalar': nf == 1 and rng.random() < 0.5,
                     # a third of the cases first run another segmentation into the same output feature (other thresholds, other mode): the second run must overwrite it
                     'before': ([rng.choice([0.0, 1.0, 2.0, 2.5, -2.0]) for _ in range(nf)], rng.choice([1, 2])) if rng.random() < 0.33 else None})
+        c = out[-1]
+        if c['nameset'] == 'repeat' and len(c['cols']) >= 2:
+            c['cols'][-1] = list(c['cols'][0])      # the last entry tests the first feature again
+            c['scalar'] = False
     return out
 
 
@@ -111,8 +115,11 @@ def run_marker(case):
         names = ['a-b', 'a', 'b'][:len(names)]
     elif case.get('nameset') == 'other':
         names = ['speed_km/h', 'v (raw)', 'acc^2'][:len(names)]
+    elif case.get('nameset') == 'repeat':             # the same feature tested twice, against two thresholds (a band): entries are matched with thresholds by position
+        names = ['f0', 'f1', 'f0'][:len(names)] if len(names) != 2 else ['f0', 'f0']
     for nm, c in zip(names, case['cols']):
-        tr.createAnalyticalFeature(nm, [nan if v is None else v for v in c])
+        if not tr.hasAnalyticalFeature(nm):
+            tr.createAnalyticalFeature(nm, [nan if v is None else v for v in c])
     if case.get('before'):
         sg.segmentation(tr, names, 'out', list(case['before'][0]), case['before'][1])
     if case.get('via') == 'collection':              # the collection-level entry point, which runs the same segmentation on each of its tracks
